@@ -291,7 +291,7 @@ pub fn exec2<'a, I: Iterator<Item = &'a str>>(op: &str, it: &mut I) -> String {
                 Err(e) => show_err(&e),
             }
         }
-        "show" => {
+        "show" | "showu" => {
             let which = match it.next() { Some(w) => w.to_string(), None => bad!() };
             // the glyph on the line is the one the harness EXPECTS for this build (from its own cargo feature); the crate
             // prints with whatever it was compiled with — the two are compared through the printed string
